@@ -197,7 +197,7 @@ func (ex *Exec) applyContract(fr *Frame, fn *ssa.Function, ct *Contract, args []
 	for _, m := range errs {
 		ex.unsupp("contract %s: %s", ct.Func, m)
 	}
-	return []Result{{st, ret, nil}}
+	return []Result{{st: st, ret: ret}}
 }
 
 // fnWriteSet: what fn can write in the world of its context argument. Discovered once per function from a generic
